@@ -85,8 +85,8 @@ class OracleOb(StmtOb):
         self.family, self.length, self.lengths = family, length, lengths
         self.free_kinds = ("k", "l") if family == "cols" else ("t", "s", "a", "d", "c")
         cand = [x for x in self.slots if x not in reentrant_slots(st)]
-        self.free = choose_free(cand, self.free_kinds, budget, self.priority if family == "tabs" else ("k",),
-                                "%s/%s/%s" % (self.pid, seed, key))
+        prio = {"tabs": self.priority, "cols": ("k",), "locals": ("d", "c", "a")}[family]
+        self.free = choose_free(cand, self.free_kinds, budget, prio, "%s/%s/%s" % (self.pid, seed, key))
         self.key = "%s/%s/len%s@%s" % (family, key, length if not lengths else "mix", dialect)
 
     def names(self, prefix="n"):
